@@ -340,8 +340,9 @@ theorem readFirst_spec (fs : FS) (f : Nat → Str → Bool) (join python : Bool)
 /-- the security settings of the process-wide state -/
 def secOf (g : Global) : Bool × Nat × Bool × Nat × Bool := (g.ownerSet, g.owner, g.groupSet, g.group, g.allowSymlinks)
 
-/-- the part of the process-wide state reads may change or depend on, apart from the security settings -/
-def dataOf (g : Global) : List Str × Str × Nat := (g.confDirs, g.errFile, g.errLine)
+/-- the process-wide setting reads depend on, apart from the security settings: the drop-in directory
+    list.  (The error-location record `errFile`/`errLine` is written by reads but never read by them.) -/
+def dataOf (g : Global) : List Str := g.confDirs
 
 /-- the result of reading an opened file does not depend on the read state -/
 theorem readOpened_result (ctx : RdCtx) (s1 s2 : RdState) (join python : Bool) (a delim comment : Str) :
@@ -368,16 +369,15 @@ theorem readOpened_data (ctx : RdCtx) (s1 s2 : RdState) (h : dataOf s1.g = dataO
     dataOf (readOpened ctx s1 join python a delim comment).1.g = dataOf (readOpened ctx s2 join python a delim comment).1.g := by
   unfold readOpened
   unfold dataOf at h ⊢
-  simp only [Prod.mk.injEq] at h
   cases ctx.fs.read a with
-  | none => simp only [h.1, h.2.1, h.2.2]
+  | none => exact h
   | some content =>
     simp only
     cases parseBytes { delim := delim, comment := comment, python := python, join := join } content with
-    | error en => simp only [h.1]
+    | error en => exact h
     | ok st =>
       simp only
-      split <;> simp only [h.1, h.2.2]
+      split <;> exact h
 
 theorem readOpened_trace (ctx : RdCtx) (s : RdState) (join python : Bool) (a delim comment : Str) :
     (readOpened ctx s join python a delim comment).1.trace = s.trace ∧ (readOpened ctx s join python a delim comment).1.calls = s.calls := by
